@@ -9,7 +9,7 @@ for d in /verif/seeded/*/; do
   [ -f $d/patch.diff ] || continue
   for c in $(python3 -c "import json;print(' '.join(json.load(open('$d/meta.json'))['caught_by']))"); do
     r=$(/verif/tools/mutcheck.sh $d/patch.diff $c quick 2>&1)
-    if echo "$r" | grep -q "^VIOLATION property="; then v=DETECTED; sig=$(echo "$r" | grep -m1 "signature=" | sed 's/ ::.*//; s/^ *//'); else v="MISSED"; sig=$(echo "$r" | tail -1 | cut -c1-120); fi
+    if echo "$r" | grep -q "^VIOLATION property="; then v=DETECTED; sig=$(echo "$r" | grep -m1 "^  signature=" | sed 's/ ::.*//; s/^ *//'); else v="MISSED"; sig=$(echo "$r" | tail -1 | cut -c1-120); fi
     echo "$v  $n  $c  $sig" | tee -a $OUT
   done
 done
